@@ -39,6 +39,7 @@ type Stats struct {
 	Queries, Sat, Unsat, Unknown, Errors int64
 	Nanos                                int64
 	Portfolio                            int64
+	CrossChecks, Disagreements           int64
 }
 
 var Global Stats
@@ -409,4 +410,35 @@ func PortfolioCheck(script string, timeout time.Duration) (Result, string) {
 	}
 	atomic.AddInt64(&Global.Nanos, int64(time.Since(t0)))
 	return res, who
+}
+
+// CrossCheck re-decides a standalone script with cvc5 only (second opinion on a z3 answer).
+func CrossCheck(script string, timeout time.Duration) Result {
+	f, err := os.CreateTemp("", "vsym-x-*.smt2")
+	if err != nil {
+		return Unknown
+	}
+	defer os.Remove(f.Name())
+	var sb strings.Builder
+	for _, l := range strings.Split(script, "\n") {
+		if strings.HasPrefix(l, "(set-option :timeout") || strings.HasPrefix(l, "(set-option :tlimit-per") || strings.HasPrefix(l, "(set-logic") {
+			continue
+		}
+		sb.WriteString(l)
+		sb.WriteString("\n")
+	}
+	f.WriteString("(set-logic ALL)\n" + sb.String() + "(check-sat)\n")
+	f.Close()
+	ctx, cancel := context.WithTimeout(context.Background(), timeout)
+	defer cancel()
+	out, _ := exec.CommandContext(ctx, "cvc5", "--lang=smt2", "--incremental", f.Name()).Output()
+	atomic.AddInt64(&Global.CrossChecks, 1)
+	first := strings.TrimSpace(strings.SplitN(string(out), "\n", 2)[0])
+	switch first {
+	case "sat":
+		return Sat
+	case "unsat":
+		return Unsat
+	}
+	return Unknown
 }
